@@ -253,7 +253,7 @@ func (r *Report) finish() int {
 		"machine integers are treated as mathematical integers",
 		"termination is not proved (partial correctness)",
 		"sequential reasoning per call: no interleavings; shared state only through declared monitors",
-		"append allocates a fresh backing array (aliasing through spare capacity not modelled)",
+		"append allocates a fresh backing array (aliasing through spare capacity is not modelled; an append into a shortened view of a slice the function does not own is reported as a frame violation)",
 		"Go strings are modelled as sequences of Unicode code points: byte strings that are not valid UTF-8 are outside the model (encoding/json replaces invalid bytes by U+FFFD)")
 	sort.Strings(fnames)
 	cov := map[string]interface{}{
